@@ -195,7 +195,10 @@ def run(tier, seed):
     for cfg, _ in CFG[tier]:
         if isinstance(results[cfg], BaseException):
             raise results[cfg]
-    neg = funcheck.expect_violation("reader", "ReaderFaults", "ReaderAsBuilt.cfg", "PropertyHolds")
+    # negative control: the reader as built (named deviation) must violate the property in the model
+    neg = run_tlc("reader", "ReaderFaults", "ReaderAsBuilt.cfg", workers=2, heap="2g", timeout=1800, keep_lines=False)
+    if "PropertyHolds" not in neg.violated:
+        raise MachineryError(f"negative control ReaderAsBuilt.cfg: expected PropertyHolds violated, got {neg.violated}")
     t_tlc = time.time() - t_tlc
 
     states = trans = 0
